@@ -66,7 +66,7 @@ package secp256k1
 //@   ct
 //@   props C02 C18
 //@   ensures val(s) == old(vsum(vec, len(vec))) && result == s
-//@   loop 0 invariant 0 - 1 <= rangeindex && rangeindex + 1 <= len(vec) && val(sum) == vsum(vec, rangeindex + 1)
+//@   loop 0 invariant loopiter <= len(vec) && val(sum) == vsum(vec, loopiter)
 //@   loop 0 modifies sum.m
 //@   modifies s.m
 //@
@@ -74,7 +74,7 @@ package secp256k1
 //@   ct
 //@   props C02 C18
 //@   ensures val(s) == old(vprod(vec, len(vec))) && result == s
-//@   loop 0 invariant 0 - 1 <= rangeindex && rangeindex + 1 <= len(vec) && val(product) == vprod(vec, rangeindex + 1)
+//@   loop 0 invariant loopiter <= len(vec) && val(product) == vprod(vec, loopiter)
 //@   loop 0 modifies product.m
 //@   modifies s.m
 //@
@@ -614,6 +614,7 @@ package secp256k1
 //@   modifies *v
 //@
 //@ func newMulBeta
+//@   helper
 //@   ct
 //@   props C04
 //@   panics !p.isValid
